@@ -32,15 +32,35 @@ def segmented_script(r, role, steps):
     return cuts
 
 
+def timed_conversations():
+    """Conversations whose ending depends on this provider's own ARTIM timer (the peer falls silent
+    and only the time-out closes the connection)."""
+    from . import fixtures as F
+    P = F.PEER
+    return {
+        'T1-reject-then-silence': ('acceptor', [('peer', [P['pRQ']]), ('user', 'uRJ'), ('time', 11.0)]),
+        'T2-silent-requestor': ('acceptor', [('time', 6.0), ('time', 6.0)]),
+        'T3-garbage-then-silence': ('acceptor', [('peer', [P['pRQ']]), ('user', 'uAC'), ('peer', [P['pUNK']]),
+                                                 ('time', 6.0), ('time', 6.0)]),
+        'T4-release-then-silence': ('acceptor', [('peer', [P['pRQ']]), ('user', 'uAC'), ('peer', [P['pRELRQ']]),
+                                                 ('user', 'uRELRP'), ('time', 11.0)]),
+    }
+
+
 def run_round(res, case):
     seed, k = case['seed'], case['round']
     r = rng(seed, 'c20-baton', k)
-    corpus = convo.corpus()
+    corpus = dict(convo.corpus())
+    corpus.update(timed_conversations())
     names = sorted(corpus)
     nsims = r.choice([2, 2, 3, 4])
     picks = [r.choice(['A2-store', 'R2-find', 'A7-pipelined', 'A1-echo', 'A6-collision', 'R6-collision',
                        'A3-peer-abort', 'A8-local-abort'] if r.random() < 0.8 else names)
              for _ in range(nsims)]
+    if k % 3 == 0:
+        # every third round: one provider that waits for its own time-out among the busy ones
+        picks[0] = r.choice(sorted(timed_conversations()))
+        res.count('baton.rounds-with-a-waiting-provider')
     recv = r.choice([65536, 16, 7])
     res.evaluations += 1
     plans = []
